@@ -203,7 +203,7 @@ def install_recorder(backend_mod, rec):
 class World:
     """One fresh import of pysnark with the named backend, recorder installed."""
 
-    def __init__(self, backend="snarkjs", bitlength=None, resolution=None, record=True):
+    def __init__(self, backend="snarkjs", bitlength=None, resolution=None, record=True, late_modulus=None):
         self.backend_name = backend
         need_fb = backend.startswith("zk")
         ensure_paths(need_fb)
@@ -236,6 +236,11 @@ class World:
         if record and backend in DICT_BACKENDS:
             self.rec = Recorder(backend)
             install_recorder(self.backend, self.rec)
+        if late_modulus is not None:
+            # the field is switched through the backend's public setter after everything has been imported
+            self.backend.set_modulus(late_modulus)
+            if self.rec is not None:
+                self.rec.p = late_modulus
         if bitlength is not None:
             rt.bitlength = bitlength
         if resolution is not None:
